@@ -905,6 +905,15 @@ where
     where
         U: for<'enc> Utf8Encoding<'enc>,
     {
+        // If we're the same, there is nothing to rebuild and we only need to validate the path
+        if T::label() == U::label() {
+            return if self.is_valid() {
+                Ok(Utf8Path::new(self.as_str()).to_path_buf())
+            } else {
+                Err(CheckedPathError::InvalidFilename)
+            };
+        }
+
         let mut path = Utf8PathBuf::new();
 
         // For root, current, and parent we specially handle to convert to the appropriate type,
